@@ -413,6 +413,34 @@ theorem invH_runOps (hD : DStep) {hdr} : ∀ (h : List EncOp) (e : Encoder) (out
       rw [g2, g3] at this
       exact this
 
+theorem Q_styling (b b' : Bool) (c : Call F32) (h : StylingOK c) : Q b c = Q b' c := by
+  cases c <;> first | rfl | exact absurd h (by simp [StylingOK])
+
+/-- a protocol-respecting program written after a single assignment of the flag: every call at that value
+    (the situation of `encode_decode`) -/
+theorem deliv_const (hi : Bool) : ∀ (p : List (Call F32)) (loc inPath endPath : Bool),
+    Proto inPath p endPath → (inPath = true → loc = hi) → deliv (hi, loc) (p.map .call) = p.map (Q hi) := by
+  intro p
+  induction p with
+  | nil => intro _ _ _ _ _; rfl
+  | cons c cs ih =>
+    intro loc inPath endPath hc hl
+    simp only [List.map_cons, deliv_cons_call]
+    cases inPath with
+    | false =>
+      simp only [Proto] at hc
+      rcases hc with ⟨hs, hrest⟩ | ⟨adj, x, y, rfl, hadj, hrest⟩
+      · rw [track_styling _ c hs, ih loc false endPath hrest (by simp), Q_styling loc hi c hs]
+      · have ht : track (hi, loc) (.call (.startPath adj x y)) = (hi, hi) := rfl
+        rw [ht, ih hi true endPath hrest (fun _ => rfl)]
+    | true =>
+      have := hl rfl; subst this
+      simp only [Proto] at hc
+      rcases hc with ⟨hd, hrest⟩ | ⟨rfl, hrest⟩
+      · rw [track_drawing _ c hd, ih loc true endPath hrest (fun _ => rfl)]
+      · have ht : track (loc, loc) (.call .closeEnd) = (loc, loc) := rfl
+        rw [ht, ih loc false endPath hrest (by simp)]
+
 /-- `Bytes()`: flush what is pending; the invariant then speaks about the whole history -/
 theorem invH_bytes (hD : DStep) {hdr} {e : Encoder} {out} {inPath : Bool} (h : InvH hdr e out inPath) :
     ∃ body, e.bytes.2 = .ok (hdr ++ body) ∧
